@@ -120,10 +120,15 @@ impl Date {
     #[inline]
     pub fn add_days(self, days: f64) -> Result<Date> {
         let timestamp = self.0.add_days(days)?;
-        Ok(Date(Timestamp::try_from_usecs(
-            ((timestamp.usecs() as f64) / USECONDS_PER_SECOND as f64).round() as i64
-                * USECONDS_PER_SECOND,
-        )?))
+        // Round to the nearest second (half away from zero) in integer arithmetic:
+        // an `f64` cannot hold microsecond counts beyond 2^53 (years after 2255) exactly.
+        let usecs = timestamp.usecs();
+        let rem = usecs % USECONDS_PER_SECOND;
+        let mut rounded = usecs - rem;
+        if rem.abs() * 2 >= USECONDS_PER_SECOND {
+            rounded += rem.signum() * USECONDS_PER_SECOND;
+        }
+        Ok(Date(Timestamp::try_from_usecs(rounded)?))
     }
 
     /// `Date` subtracts `Date`
